@@ -68,6 +68,14 @@ def comparison(ctx):
             for (t, c, _b) in lf.conds:
                 if conn.is_size_cmp(t):
                     a, b = look(t[2]), look(t[3])
+                    # `min(length, limit) < length`: the operands are those of the min
+                    for m_, o_ in ((a, b), (b, a)):
+                        m0 = m_
+                        while m0[0] == "cast":
+                            m0 = look(m0[1])
+                        if is_call(m0, "min") and len(m0[2]) == 2 and conn.is_len_term(o_):
+                            a, b = look(m0[2][0]), look(m0[2][1])
+                            break
                     if any(isinstance(s, tuple) and s and s[0] == "field" and s[3] == "payload_max_size" for s in subterms(a)):
                         a, b = b, a
                     ok_a = a[0] == "cast" and a[2] == "usize" and is_call(look(a[1]), "common::headers::Headers::content_length") and conn.pending_req(a)
